@@ -265,6 +265,24 @@ impl ServerWorker {
     { self }
 }
 
+/// actix_rt::{Arbiter, ArbiterHandle} as far as the worker's destructor uses them
+#[verifier::external_body]
+pub struct ArbiterHandle { _p: () }
+pub struct Arbiter { }
+impl Arbiter { #[verifier::external_body] pub fn try_current() -> (r: Option<ArbiterHandle>) { unimplemented!() } }
+impl ArbiterHandle { #[verifier::external_body] pub fn stop(&self) -> (r: bool) { unimplemented!() } }
+
+impl ServerWorker {
+//@extract file=actix-server/src/worker.rs item="impl Drop for ServerWorker / fn drop" props=C01,C08 name=worker::drop_worker
+//@spec
+    ensures
+        // The destructor BODY runs no user code and leaves every field as it is; the fields are dropped after it, in
+        // declaration order — `conn_rx` first (checked above).  So the connection channel closes (the accept thread's
+        // next send fails and the connection is re-routed) before any service instance's own Drop can run.   [C08]
+        *final(self) == *old(self),
+//@end
+}
+
 // ===================================================================== specification vocabulary
 pub open spec fn pollable(s: WorkerServiceStatus) -> bool {
     s == WorkerServiceStatus::Available || s == WorkerServiceStatus::Unavailable
